@@ -7,8 +7,8 @@ import (
 
 // which rules serve which property (DESIGN.md section I.4)
 func init() {
-	serve("C01", "T1", "T2", "T3", "T6", "T8", "T9", "T10", "T11", "T13", "B1", "B2", "B3", "B3b", "G6", "U1", "V9")
-	serve("C02", "B1", "B1n", "B2", "B3", "B3b", "B4", "B6", "B7", "G6", "T8", "U2")
+	serve("C01", "T1", "T2", "T3", "T6", "T8", "T9", "T10", "T11", "T13", "B1", "B2", "B3", "B3b", "G6", "U1", "V9", "B8")
+	serve("C02", "B1", "B1n", "B2", "B3", "B3b", "B4", "B6", "B7", "G6", "T8", "U2", "B8")
 	serve("C03", "F1", "F2", "F3", "T6", "T9", "B4", "B3b", "G6r", "L1@io")
 	serve("C04", "W1", "W2", "W2b", "W3", "W5", "W6", "W7", "W8", "W9", "W10", "V6", "T5", "T11", "U1", "U2", "W12")
 	serve("C05", "V2", "V1", "V4", "V5", "V7", "V9")
